@@ -2,13 +2,15 @@
 """Re-runs every stored seeded change against the checks that caught it (scratch worktree /tmp/wt_re at
 /repo's HEAD, VERIF_REPO mode). Prints regressions: a change that used to be caught and is now missed."""
 import glob, json, os, subprocess, sys
-wt = "/tmp/wt_re"
+wt = "/tmp/wt_re_%d" % os.getpid()
 subprocess.run("git -C /repo worktree remove --force %s 2>/dev/null; git -C /repo worktree add -q --detach %s HEAD" % (wt, wt), shell=True)
 only = sys.argv[1:]
 bad = 0
 for d in sorted(glob.glob("/verif/seeded/*/")):
     name = os.path.basename(d.rstrip("/"))
     if only and not any(name.startswith(o) for o in only):
+        continue
+    if name.startswith("harmless"):
         continue
     meta = json.load(open(d + "meta.json"))
     subprocess.run("git -C %s checkout -q -- ." % wt, shell=True)
